@@ -63,7 +63,10 @@ class ResolveOuterVars(ast.NodeTransformer):
                 if undefined:
                     res.append(asty.Global(node, names=list(undefined)))
                 if defined:
-                    res.append(asty.Nonlocal(node, names=list(defined)))
+                    # Keep the order the names were written in, so the
+                    # result doesn't depend on string hashing.
+                    res.append(asty.Nonlocal(node, names=[
+                        name for name in node.names if name in defined]))
                 return res
             defined.update(has.intersection(undefined))
             undefined = [name for name in undefined if name not in has]
